@@ -329,7 +329,8 @@ func runAcceptCloseRace(c *Ctx) {
 				// the library's own header: it accepted this connection and began the handshake, so closing it is
 				// the library's job (a connection still in the kernel's accept queue when the listening socket goes
 				// can linger without any library involvement — a plain net.Listener shows the same — and is not counted)
-				_ = cn.SetReadDeadline(time.Now().Add(40 * time.Millisecond))
+				// end-of-stream normally is there already; under load the goroutine that closes it may be late
+				_ = cn.SetReadDeadline(time.Now().Add(2 * time.Second))
 				_, err = cn.Read(buf)
 				if ne, ok := err.(net.Error); ok && ne.Timeout() {
 					open++
@@ -346,7 +347,7 @@ func runAcceptCloseRace(c *Ctx) {
 	}
 	c.T.Line("accept-close race", "cl.check accepted-at-close-conn", obs)
 	if open > 0 {
-		c.Violate(fmt.Sprintf("Socket.Close while silent peers keep connecting (tcp): %d of %d connections on which the library had begun its handshake were still open 60 ms after the socket was closed — accepted just before Close, given to the closed handshaker afterwards, never closed", open, total),
+		c.Violate(fmt.Sprintf("Socket.Close while silent peers keep connecting (tcp): %d of %d connections on which the library had begun its handshake were still open 2 s after the socket was closed — accepted just before Close, given to the closed handshaker afterwards, never closed", open, total),
 			map[string]interface{}{"scenario": "pair socket listening on tcp://127.0.0.1:0; 4 goroutines net.Dial in a loop and send nothing; Socket.Close after 0.2–1.1 ms; every connection must then read EOF", "rounds": rounds})
 	}
 }
